@@ -36,6 +36,7 @@ import (
 	"sync"
 	"testing"
 	"testing/synctest"
+	"time"
 )
 
 const swNT = 3
@@ -53,6 +54,7 @@ type swCase struct {
 	MaxMsgs    int     `json:"max_msgs"`
 	MaxBatches int     `json:"max_batches"`
 	Interval   int32   `json:"interval"`
+	Foreign    bool    `json:"foreign,omitempty"` // S3 also holds objects of partitions 10 and 13 of the same topic
 	Plan       []swAct `json:"plan"`
 }
 
@@ -302,7 +304,7 @@ type swExec struct {
 	}
 }
 
-const swPrefix = "default/t/0/"
+const swPrefix = "default/t/1/" // the partition under test is partition 1; partitions 10 and 13 may hold foreign data
 
 func (x *swExec) setFail(key, what string) {
 	if x.fail == "" {
@@ -333,7 +335,7 @@ func (x *swExec) openLog(e *swEpoch, syncOK bool) (bool, bool) {
 		return false, true
 	}
 	nextOffset := x.w.store
-	plog := NewPartitionLog("default", "t", 0, nextOffset, &swS3{e: e}, nil, x.logCfg(), e.onFlush, nil, nil)
+	plog := NewPartitionLog("default", "t", 1, nextOffset, &swS3{e: e}, nil, x.logCfg(), e.onFlush, nil, nil)
 	before := e.ops
 	lastOffset, err := plog.RestoreFromS3(context.Background())
 	_ = before
@@ -757,6 +759,9 @@ func (x *swExec) s3view() (segs []swSegObj, idx map[int64][]*IndexEntry, idxKeys
 	x.lockWorld()
 	defer x.unlockWorld()
 	for k, d := range x.w.objs {
+		if !strings.HasPrefix(k, swPrefix) { // objects of other partitions are not this partition's data
+			continue
+		}
 		name := k[strings.LastIndex(k, "/")+1:]
 		if strings.HasSuffix(name, ".kfs") {
 			base, ok := parseSegmentBaseOffset(k)
@@ -1155,6 +1160,10 @@ func swRun(t *testing.T, cs swCase, prop string) swResult {
 	var res swResult
 	synctest.Test(t, func(t *testing.T) {
 		x := &swExec{cs: cs, prop: prop, w: &swWorld{objs: map[string][]byte{}}, up: map[int]*swUp{}, origin: map[int]int{}, cbEmpty: map[int]bool{}, overtaken: map[int]bool{}, overtakenNE: map[int]bool{}, cbStale: map[int]bool{}, tags: map[string]bool{}}
+		if cs.Foreign {
+			swPutForeign(x.w)
+			x.tags["foreign-partitions"] = true
+		}
 		x.e = x.newEpoch()
 		if ok, _ := x.openLog(x.e, true); !ok {
 			t.Fatalf("initial open failed")
@@ -1179,6 +1188,28 @@ func swRun(t *testing.T, cs swCase, prop string) swResult {
 		x.kill()
 	})
 	return res
+}
+
+// swPutForeign stores segments of partitions 10 and 13 of the same topic (ids that have the
+// partition under test, "1", as a decimal prefix) holding more data than partition 1 will:
+// a restore of partition 1 must list exactly "<ns>/<topic>/1/".
+func swPutForeign(w *swWorld) {
+	put := func(part int, base int64, lod int32, withIndex bool) {
+		raw := swBatch(lod, lod+1, base, 5, byte(0xF0+part%10))
+		art, err := BuildSegment(SegmentWriterConfig{IndexIntervalMessages: 1}, []RecordBatch{{BaseOffset: base, LastOffsetDelta: lod, MessageCount: lod + 1, Bytes: raw}}, time.Now())
+		if err != nil {
+			return
+		}
+		dir := fmt.Sprintf("default/t/%d/", part)
+		w.objs[dir+fmt.Sprintf("segment-%020d.kfs", base)] = art.SegmentBytes
+		if withIndex {
+			w.objs[dir+fmt.Sprintf("segment-%020d.index", base)] = art.IndexBytes
+		}
+	}
+	put(10, 0, 40, true)
+	put(10, 41, 9, true)
+	put(13, 0, 70, false)
+	put(13, 2, 5, true)
 }
 
 // ---------------------------------------------------------------- generators
@@ -1299,7 +1330,7 @@ func swGenCfgFor(prop string) swGenCfg {
 // execution are skipped by the executor, so the shadow only has to be roughly right.
 func swGen(r *vRand, prop string, maxActs int) swCase {
 	g := swGenCfgFor(prop)
-	cs := swCase{Interval: []int32{1, 1, 3, 100}[r.Intn(4)]}
+	cs := swCase{Interval: []int32{1, 1, 3, 100}[r.Intn(4)], Foreign: r.Chance(40)}
 	switch r.Intn(6) {
 	case 0:
 		cs.MaxBatches = r.Range(1, 3)
@@ -1363,7 +1394,7 @@ func swGen(r *vRand, prop string, maxActs int) swCase {
 // swGenDriven builds a plan while executing a cheap status shadow so that most actions are enabled.
 func swGenDriven(r *vRand, prop string, maxActs int) swCase {
 	g := swGenCfgFor(prop)
-	cs := swCase{Interval: []int32{1, 1, 3, 100}[r.Intn(4)]}
+	cs := swCase{Interval: []int32{1, 1, 3, 100}[r.Intn(4)], Foreign: r.Chance(40)}
 	switch r.Intn(6) {
 	case 0:
 		cs.MaxBatches = r.Range(1, 3)
@@ -1538,6 +1569,10 @@ func swCorpus2() []swCase {
 		// the committed offset; callbacks A then B (no regression allowed), then the reverse
 		{Interval: 1, Plan: cat(full(2, b(1)), []swAct{P(1, b(2)), P(0, b(3)), F(0), F(1), S(0, true), I(0, true), C(0, true), C(1, true), R(0), R(1)})},
 		{Interval: 1, Plan: cat(full(2, b(1)), []swAct{P(1, b(2)), P(0, b(3)), F(0), F(1), I(0, true), S(0, true), C(1, true), C(0, true), R(1), R(0)})},
+		// restart of partition 1 next to partitions 10 and 13 that hold more data (store behind S3, incl. 0)
+		{Interval: 1, Foreign: true, Plan: cat(full(0, b(1)), []swAct{{K: "crash"}, {K: "restart", Ok: true}}, []swAct{P(1, b(2)), F(1), S(1, true), I(1, true), C(1, false), R(1)},
+			[]swAct{{K: "crash"}, {K: "restart", Ok: false}}, full(2, b(3)), []swAct{{K: "crash"}, {K: "restart", Ok: true}}, full(0, b(4)))},
+		{Interval: 1, Foreign: true, Plan: cat([]swAct{P(0, b(1)), F(0), S(0, true), I(0, true), C(0, false), R(0), {K: "crash"}, {K: "restart", Ok: false}}, full(1, b(2)))},
 		// C05 known finding hw-empty-flush-publish-reorder: B's empty Flush snapshots the committed
 		// offset 1; C's flush commits offset 2 and publishes 3; then B's put lands: 3 -> 2
 		{Interval: 1, Plan: []swAct{P(0, b(1)), P(1, b(2)), F(0), S(0, true), I(0, true), C(0, true), R(0), F(1), P(2, b(3)), F(2), S(2, true), I(2, true), C(2, true), C(1, true), R(1), R(2)}},
